@@ -16,29 +16,55 @@ os.environ.setdefault("GOMAXPROCS", "2")  # the harness is sequential per worker
 CONFIG = {
     "rule": "case = one Python program; every code object the real compiler emits for it (module + all nested) is dumped and fed to the proved verifier, "
             "and every distinct (code object, pc, stack depth, stack kinds, block stack) the VM is in under hook H2 must be a state the certificate predicts; "
+            # [C12-ext2 g3] begin
+            "every distinct pair of CONSECUTIVE observations of one frame (nested calls and generator suspension in between included) must be an instance of the abstract machine's step relation "
+            "(some predicted state explains the first observation and one of its step outcomes next/yield explains the second: verdict STEP-MISMATCH otherwise), "
+            "and the first observation of every frame must be pc 0 with an empty stack and no block (START-MISMATCH otherwise); "
+            # [C12-ext2 g3] end
             "non-trivial (tag nt) = generated program with at least one function and one block construct (loop / try / with) - all of families nest, pos, feat, rand; "
             "family pos: every leaf statement (all simple statement kinds, break/continue/return/raise/yield guarded and unguarded) in every slot of every compound statement "
             "(if/elif/else, while/for body and else, try body/handlers/else/finally, with, nested def and class), slot paths of depth 0..2 exhaustively in a function body and in a loop in a function body "
             "(= depth 3), depth 0..1 at module level, seeded samples of depth 3..4 (thorough: depth 3 exhaustively, samples of depth 4..5); the expected verdict comes from the spec "
             "placementError (Placement.lean): ok, or nocompile:E:SyntaxError for the placements Python 3.4 rejects (tag synerr); "
             "family asm: instruction streams for the real Instructions.Assemble/StackDepth, V = the harness's own check that every emitted jump lands on its label's byte offset, R = bytes/depth compared with the Lean model of the assembler; "
+            # [C12-ext2 g4] begin
+            "family tb: programs in which exactly one designated sub-expression faults inside a statement spread over several lines (call with arguments on following lines - fault in callee / first / last argument / the call itself, "
+            "nested calls, parenthesised binary operations, subscripts, attribute on a later line, list and dict displays, conditional expressions, return ( ... ), assert with the message on a later line, with items, default values, "
+            "1-3 decorators with and without arguments on def and class faulting while evaluated or while applied, comprehensions), every layout of the token slots (same line / next line; all 2^n for n <= 4, seeded sample beyond), in 1-2 frames; "
+            "V = the REAL traceback of the escaping exception as name:line entries + class, specV = Python 3.4's rule (TbSpec.lean: within a statement the line only increases, an instruction carries the max of the lines of the nodes visited so far), "
+            "modelV = gpython's compiler (raw c.Lineno per instruction, may decrease) pushed through the Lean Lnotab()/Addr2Line(Lasti-1); R = the co-process recomputed every entry's line with the Lean addr2line on the dumped code object; "
+            # [C12-ext2 g4] end
             "repository .py files (family F) are explored but not counted; distinct = distinct program text",
     "trusted_base": [
         "Lean 4.33.0 kernel; axioms allowed: propext, Classical.choice, Quot.sound (audited per theorem on every run)",
         "lean/GPy/C12/Model.lean: hand transliteration of the stack/block behaviour of every do_<OPCODE> of vm/eval.go and of RunFrame's unwinding loop (abstract machine over value kinds); "
-        "tied to /repo by dynamic conformance under hook H2 (every executed instruction's real pc/depth/kinds/blocks must be a predicted state) - not by proof",
+        "tied to /repo by dynamic conformance under hook H2 (every executed instruction's real pc/depth/kinds/blocks must be a predicted state, and every pair of consecutive observations of a frame "
+        "must be related by the model's `step`: Conform.stepConforms, characterised exactly by ConformProofs.stepConforms_iff / Props.observed_transition_is_step) - not by proof; "
+        "how a frame ENDS (return / escaping exception after its last observation) is not observed",  # [C12-ext2 g3]
         "lean/GPy/C12/Generated.lean: opcode numbers, HAVE_ARGUMENT and compile/instructions.go's opcodeStackEffect/nArgs, REGENERATED from the working tree by extract/opcodes (go/ast) on every run",
         "lean/GPy/C12/Spec.lean: Reach / SafeAt / WellFormed - my statement of 'well-formed and stack-safe on every path'; lean/GPy/C12/Placement.lean: which placements of break/continue/return/yield Python 3.4 rejects (written from the language reference / CPython 3.4 compile.c)",
         "lean/GPy/C12/Assemble.lean: hand transliteration of compile/instructions.go Pass/Assemble/Resolve/Size/Output and stackDepthWalk/StackDepth (uint32 wrap explicit); tied to /repo by family asm (byte string and stack depth of the real functions on generated streams, incl. streams over 64 KiB that need EXTENDED_ARG and several passes)",
         "lean/GPy/C12/Verify.lean + Conform.lean: the verifier whose soundness is Props.verify_sound, and the (unproved, small) text parser of the dump lines and the observation matcher",
+        "harness/c12.go (dump of py.Code fields, H2 observation, pairing of consecutive observations per *py.Frame, de-duplication: ints outside 0..6 are compared by position only), checks/common.py",  # [C12-ext2 g3]
+        # [C12-ext2 g1] begin
+        "lean/GPy/C12/Depth.lean: disasm (emitted bytes -> the instruction stream compiler.Jump builds: one label per instruction start, JumpAbs/JumpRel by opcode), walkD/depthClosedB/walkExcludedB (the decidable hypotheses of "
+        "stackdepth_upper_bound_partial); evaluated by the co-process for every emitted code object of at most 250 instructions and reported as coverage (stackdepth_model_on_emitted_objects); "
+        "labels that sit at the same offset are ONE label in the disassembled stream, distinct objects in the compiler's stream - the walk's seen/startDepth pruning can then differ (model StackDepth() <= real Stacksize in ~1% of the objects, try statements nested in loops)",
+        # [C12-ext2 g1] end
         "harness/c12.go (dump of py.Code fields, H2 observation, de-duplication), checks/common.py",
+        # [C12-ext2 g4] begin
+        "lean/GPy/C12/TbSpec.lean: my reading of CPython 3.4's compile.c / ast.c for line numbers (u_lineno only increases inside a statement; node lineno = line of the first token; a decorated def/class has the line of its first decorator; "
+        "visit orders of Call / Dict / IfExp / assert / with / def / class / comprehension) as an event list folded with max - the spec of family tb; the model half (gpython assigns c.Lineno on every visit) is tied to /repo only by the tb runs; "
+        "lean/GPy/C02/Model.lean lnotab/addr2line/tracebackAddr (reused): transliteration of compile/instructions.go Lnotab() and py/code.go Addr2Line; GPy/C12/Lnotab.lean runMax/flat/withLnotab (definitions the theorems lnotab_running_max, lnotab_wellformed, addr2line_models_agree, traceback_line_running_max speak about); "
+        "gpython's dict accepts only str keys (KeyError otherwise): dict displays of family tb use string keys, an unhashable-key fault is not explored",
+        # [C12-ext2 g4] end
         "type-assertion panics inside do_<OPCODE> (v.(*py.List), code.(*py.Code)) and py-level behaviour of operands are outside C12; int32 wrap of jump arithmetic is not modelled (operands < 2^31 enforced by the decoder)",
     ],
     "assumptions": [
         "the universal claim over *programs* rests on per-object certification: each emitted code object accepted by the proved verifier is, by verify_sound, safe on all its paths; "
         "that the compiler emits only acceptable objects for programs outside the explored set is not proved (compile_wellformed is a growth target)",
-        "EXTENDED_ARG is modelled fused with the instruction it prefixes; the observation of the prefixed instruction is skipped by the harness",
-        "generator frames: Generator.Send pushes exactly one value on resumption (py/generator.go); throw()/close() are NotImplemented in gpython and not modelled",
+        "EXTENDED_ARG is modelled fused with the instruction it prefixes; the observation of the prefixed instruction is skipped by the harness (a transition therefore runs from the EXTENDED_ARG's pc to the successor of the prefixed instruction)",  # [C12-ext2 g3]
+        "generator frames: Generator.Send pushes exactly one value on resumption (py/generator.go) - now observed: the transition YIELD_VALUE/YIELD_FROM -> first instruction after resumption is checked against the model's `yield` outcome; throw()/close() are NotImplemented in gpython and not modelled",  # [C12-ext2 g3]
         "runs are cut after 300000 instructions (pystone, benchmarks); observations up to the cut are still checked",
     ],
     "exhaustive": True,
@@ -65,17 +91,21 @@ def pre(run):
 
 def extra(run):
     tot = {"programs": 0, "objects": 0, "observations": 0, "instructions": 0, "aborted_runs": 0,
+           "transitions": 0, "frame_starts": 0,  # [C12-ext2 g3]
            "max_block_depth": 0, "max_stack_depth": 0}
     ops, shapes, emitted = {}, {}, {}
+    depth = {}  # [C12-ext2 g1]
     for f in glob.glob(STATS + ".*.json"):
         try:
             d = json.load(open(f))
         except Exception:
             continue
-        for k in ("programs", "objects", "observations", "instructions", "aborted_runs"):
+        for k in ("programs", "objects", "observations", "instructions", "aborted_runs", "transitions", "frame_starts"):  # [C12-ext2 g3]
             tot[k] += d.get(k, 0)
         for k in ("max_block_depth", "max_stack_depth"):
             tot[k] = max(tot[k], d.get(k, 0))
+        for k, v in (d.get("depth") or {}).items():  # [C12-ext2 g1]
+            depth[k] = depth.get(k, 0) + v
         for src, dst in ((d.get("opcodes_executed", {}), ops), (d.get("shapes", {}), shapes), (d.get("opcodes_emitted", {}), emitted)):
             for k, v in src.items():
                 k = k.replace("HAVE_ARGUMENT", "STORE_NAME")  # stringer names opcode 90 after the boundary constant
@@ -85,6 +115,24 @@ def extra(run):
     run.cov["programs_compiled"] = tot["programs"]
     run.cov["executed_instructions"] = tot["instructions"]
     run.cov["distinct_observed_states"] = tot["observations"]
+    # [C12-ext2 g3] begin
+    run.cov["distinct_observed_transitions"] = tot["transitions"]
+    run.cov["distinct_frame_start_states"] = tot["frame_starts"]
+    # [C12-ext2 g3] end
+    # [C12-ext2 g1] begin: gpython's StackDepth() (Lean model of stackDepthWalk on the disassembled stream) per emitted object
+    run.cov["stackdepth_model_on_emitted_objects"] = {
+        "objects_walked (<= 250 instructions)": depth.get("dw", 0),
+        "model_StackDepth_equals_real_Stacksize": depth.get("deq", 0),
+        "walk_result_closed (hypothesis 1 of stackdepth_upper_bound_partial)": depth.get("dclosed", 0),
+        "certificate_predicts_excluded_shape (hypothesis 2 fails)": depth.get("dexcl", 0),
+        "theorem_applies (closed and not excluded)": depth.get("dthm", 0),
+        "model_StackDepth_below_certificate_max_depth (must be 0)": depth.get("dbelow", 0),
+        "model_StackDepth_above_real_Stacksize": depth.get("dhigh", 0),
+    }
+    if depth.get("dbelow", 0):
+        run.violation({"kind": "stackdepth", "broken": "StackDepth() of the model is below the verifier's maximal depth for an emitted code object",
+                       "count": depth.get("dbelow", 0)}, nofail=True)
+    # [C12-ext2 g1] end
     run.cov["runs_cut_by_budget"] = tot["aborted_runs"]
     run.cov["max_block_depth_observed"] = tot["max_block_depth"]
     run.cov["max_stack_depth_observed"] = tot["max_stack_depth"]
@@ -93,7 +141,7 @@ def extra(run):
     run.cov["opcodes_observed_distinct_states"] = dict(sorted(ops.items(), key=lambda kv: -kv[1]))
     run.cov["opcodes_never_emitted"] = sorted(set(ALL_OPS) - set(emitted))
     run.say(f"C12: {tot['programs']} programs, {tot['objects']} code objects certified, {tot['instructions']} instructions executed under H2, "
-            f"{tot['observations']} distinct observed states, shapes {shapes}")
+            f"{tot['observations']} distinct observed states, {tot['transitions']} distinct observed transitions checked against step, shapes {shapes}")
 
 
 ALL_OPS = """POP_TOP ROT_TWO ROT_THREE DUP_TOP DUP_TOP_TWO NOP UNARY_POSITIVE UNARY_NEGATIVE UNARY_NOT UNARY_INVERT BINARY_POWER
